@@ -116,6 +116,16 @@ theorem decode_encode (m : Msg) (h : WF m) (rest : Bytes) :
       decTimerState_enc off1 w1', decTimerState_enc on2 w2, decTimerState_enc off2 w2',
       decTimerState_enc on3 w3, decTimerState_enc off3 w3', bind, Except.bind, pure, Except.pure]
 
+/-! ### run-time well-formedness test -/
+
+theorem wfListBool_iff (l : List AcTimerStatusData) : wfListBool l = true ↔ WFList l := by
+  simp only [wfListBool, WFList, Bool.and_eq_true, beq_iff_eq, List.all_eq_true, wfStateBool_iff]
+
+theorem wfBool_iff (m : Msg) : wfBool m = true ↔ WF m := by
+  cases m with
+  | request => simp only [wfBool, WF]
+  | status l => exact wfListBool_iff l
+
 /-! ### why `WF` insists on exactly the ACs 0..3 (these messages are produced by the decoder) -/
 
 /-- a one-AC message (decoded from an 8-byte payload) is re-encoded as four slots and decodes to four ACs -/
